@@ -61,6 +61,8 @@ def run(ck):
     placeholder_tables(ck)
     value_paths(ck)
     spec_tables(ck)
+    spec_precedence(ck)
+    literal_path(ck)
 
 
 def token_fns(F, method):
@@ -410,3 +412,150 @@ def spec_tables(ck):
             fl = [f for f in r["fields"] if f["name"] == "fill"]
             ok = bool(fl) and fl[0].get("init") is not None and (const_str(fl[0]["init"]) == " " or const_int(fl[0]["init"]) == 32)
             ck.ob("C12-O4", "patternformatter.cpp (FormatSpec::fill)", ok, "fill defaults to a space" if ok else "fill defaults to %s" % describe(fl[0].get("init")) if fl else "no fill field", key="FormatSpec|fill-default")
+
+
+def _at_index(fn, n, svar_pred):
+    """k if expression n (after following single-assignment locals) is <spec string>.at(k) / [k] with constant k"""
+    n = deref_local(fn, n)
+    n = skip_copies(n)
+    if isinstance(n, dict) and n.get("k") == "construct" and len(n.get("args", [])) == 1:
+        return _at_index(fn, n["args"][0], svar_pred)
+    if is_call(n, ("at", "operator[]")) or (isinstance(n, dict) and n.get("k") == "call" and n.get("op") == "[]"):
+        obj = n.get("obj") if n.get("ck") == "member" else (n.get("args") or [None])[0]
+        idx = (n.get("args") or [None])[-1]
+        if svar_pred(skip_copies(obj)) and const_int(idx) is not None:
+            return const_int(idx)
+    return None
+
+
+def spec_precedence(ck):
+    """C12-O4: `[fill][align]width`: when the second character is an alignment character the first one is the fill — whatever it
+    is, also '<', '>' or '^'. So the test of position 1 must come first and win over the align-only reading of position 0."""
+    F = ck.facts
+    fn = F.fn("FormattedToken::parseFormatSpec")
+    ck.touch(fn)
+    g = Graph(fn)
+    svars = {v["decl"] for n in fn.find(lambda n: n.get("k") == "decl") for v in n.get("vars", []) if (v.get("type") or "").replace("const ", "") == "QString"} | {fn.params[0]["decl"]}
+    is_s = lambda o: isinstance(o, dict) and o.get("k") == "ref" and o.get("decl") in svars
+    # classification sites: an alignment test applied to s.at(k) inside a branch condition
+    cls = {0: [], 1: []}
+    for b in g.blocks.values():
+        if b.get("cond") is None:
+            continue
+        c = fn.nodes.get(b["cond"])
+        for x in walk(c) if c else ():
+            if x.get("k") != "call":
+                continue
+            arg = None
+            if name_is(x.get("callee"), "contains") and x.get("args") and const_str(x.get("obj")) is not None and set(const_str(x.get("obj"))) == set("<^>"):
+                arg = x["args"][0]
+            elif name_is(x.get("callee"), "charToAlignment") and x.get("args"):
+                arg = x["args"][0]
+            if arg is None:
+                continue
+            k = _at_index(fn, arg, is_s)
+            if k in (0, 1):
+                cls[k].append(x)
+    if not cls[0] or not cls[1]:
+        ck.ob("C12-O4", sitestr(fn), None, "format spec: alignment tests of position 0 (%d) / position 1 (%d) not found as branch conditions" % (len(cls[0]), len(cls[1])))
+        return
+    lencall = lambda n: is_call(n, ("QString::length", "QString::size", "QString::count")) and is_s(skip_copies(skip_copies(n).get("obj")))
+    empt = lambda n: is_call(n, "QString::isEmpty") and is_s(skip_copies(skip_copies(n).get("obj")))
+
+    def leaf(n):
+        if lencall(n):
+            return 3
+        if empt(n):
+            return 0
+        return None
+    base = numeric_atom(fn, leaf)
+    s1 = set(g.sites_of_nodes(cls[1]))
+    keep = g.projector(base)
+    ok_first = all(g.dominated(g.site_of(c0), s1, keep=keep) for c0 in cls[0])
+    ck.ob("C12-O4", sitestr(fn, cls[0][0]), ok_first, "with two or more characters the fill+align reading (position 1) is tested before the align-only reading (position 0)" if ok_first else
+          "the align-only reading of position 0 is tried before/without testing position 1: a spec whose fill character is itself '<', '>' or '^' (\"%{type:>>10}\") is misread and rejected",
+          key="parseFormatSpec|fill-align-precedence")
+    # when position 1 is an alignment character the align-only reading must not be applied as well
+    ids1 = {c["id"] for c in cls[1]}
+
+    def atom(n):
+        if n.get("id") in ids1:
+            return True
+        if n.get("k") == "binop" and n.get("op") in ("==", "!=") and any(skip_copies(x).get("k") == "member" and skip_copies(x).get("name", "").endswith("::align") for x in (n.get("lhs"), n.get("rhs"))) \
+                and any((skip_copies(x).get("name") or "").endswith("Alignment::None") for x in (n.get("lhs"), n.get("rhs"))):
+            return n["op"] == "!="   # align was just set from an alignment character: it is not None
+        return base(n)
+    live = g.live(g.projector(atom))
+    second = [c0 for c0 in cls[0] if g.site_of(c0) in live]
+    ck.ob("C12-O4", sitestr(fn, cls[1][0]), not second, "once position 1 gave the alignment, position 0 is the fill and is not re-read as an alignment" if not second else
+          "after the fill+align reading succeeded the first character is read again as an alignment", key="parseFormatSpec|fill-reread")
+
+
+def literal_path(ck):
+    """C12-O2 (escape everywhere): the literal accumulator of the tokeniser receives pattern text only one character at a time (or
+    the '%' of an escape); a bulk copy of a slice of the pattern bypasses the %% rule unless the slice is cut at the next '%'"""
+    F = ck.facts
+    pp = F.fn("PatternFormatterPrivate::parsePattern")
+    ck.touch(pp)
+    lits = [n for n in pp.find(lambda n: n.get("k") == "construct" and (n.get("class") or "").endswith("LiteralToken") and n.get("args"))]
+    decls = {skip_copies(n["args"][0]).get("decl") for n in lits if skip_copies(n["args"][0]).get("k") == "ref"}
+    if len(decls) != 1:
+        ck.ob("C12-O2", sitestr(pp), None, "literal accumulator of parsePattern not recognised")
+        return
+    acc = decls.pop()
+    PAT = "PatternFormatterPrivate::m_pattern"
+    n_w = 0
+    for c in pp.calls():
+        tgt, arg = None, None
+        if c.get("ck") == "member" and is_ref_to(c.get("obj"), acc) and name_is(c.get("callee"), ("append", "push_back", "prepend", "insert")) and c.get("args"):
+            tgt, arg = c, c["args"][-1]
+        elif c.get("ck") == "operator" and c.get("op") in ("+=", "=") and c.get("args") and is_ref_to(c["args"][0], acc) and len(c["args"]) == 2:
+            tgt, arg = c, c["args"][1]
+        if tgt is None:
+            continue
+        n_w += 1
+        a = skip_copies(arg)
+        while isinstance(a, dict) and a.get("k") == "construct" and len(a.get("args", [])) == 1 and a.get("class") in ("QChar", "QString", "QLatin1Char"):
+            a = skip_copies(a["args"][0])
+        while isinstance(a, dict) and a.get("k") == "call" and a.get("conv") and a.get("obj"):
+            a = skip_copies(a["obj"])
+        if const_int(a) is not None or const_str(a) is not None:
+            continue
+        if isinstance(a, dict) and a.get("k") == "call" and (a.get("op") == "[]" or name_is(a.get("callee"), "at")) and any(is_this_field(x, PAT) for x in walk(a)):
+            continue   # one character of the pattern
+        slice_ = isinstance(a, dict) and a.get("k") == "call" and name_is(a.get("callee"), ("mid", "left", "right", "midRef", "leftRef", "rightRef", "sliced", "chopped")) and is_this_field(a.get("obj"), PAT)
+        if slice_:
+            args = a.get("args", [])
+            cut = None
+            if name_is(a.get("callee"), ("mid", "midRef", "sliced")) and len(args) >= 2 and args[1].get("k") != "defaultarg":
+                cut = args[1]
+            elif name_is(a.get("callee"), ("left", "leftRef")) and args:
+                cut = args[0]
+            bounded = False
+            def is_pct_index(y):
+                return any(is_call(z, ("indexOf",)) and z.get("args") and (const_int(z["args"][0]) == 37 or const_str(z["args"][0]) == "%") for z in walk(y))
+
+            def is_pat_len(y):
+                y = skip_copies(y)
+                return is_call(y, ("length", "size", "count")) and is_this_field(y.get("obj"), PAT)
+            if cut is not None:
+                for x in walk(cut):
+                    if x.get("k") == "ref" and x.get("dk") == "local":
+                        # every value the local can hold: its initialiser and all assignments
+                        vals = []
+                        _, var = local_var(pp, x["decl"])
+                        if var and isinstance(var.get("init"), dict):
+                            vals.append(var["init"])
+                        for r in refs_to(pp, x["decl"]):
+                            asg, rhs = assignment_target(pp, r)
+                            if asg is not None and rhs is not None:
+                                vals.append(rhs)
+                        if vals and any(is_pct_index(v) for v in vals) and all(is_pct_index(v) or is_pat_len(v) for v in vals):
+                            bounded = True
+                    elif is_pct_index(x):
+                        bounded = True
+            ck.ob("C12-O2", sitestr(pp, tgt), bounded, "a run of pattern text is copied up to the next '%' (no escape or placeholder inside)" if bounded else
+                  "%s copies a slice of the pattern into the literal text without looking for '%%' in it: a later \"%%%%\" escape is kept as two characters" % describe(tgt)[:70], key="parsePattern|literal-slice")
+        else:
+            ck.ob("C12-O2", sitestr(pp, tgt), None, "the literal text receives %s; idiom not recognised" % describe(a)[:60])
+    ck.ob("C12-O2", sitestr(pp), n_w >= 3, "%d writes to the literal accumulator, each a single pattern character, a constant, or a run cut at '%%'" % n_w, key="parsePattern|literal-writes")
